@@ -162,6 +162,10 @@ PLANS = {
                 extra=[apalache_varint]),
     "C15": dict(level="model_checking", assumptions=TRUST + ["independent decoder: sequential walk, codec crates, LEB128 framing parser"],
                 gen=[G("cut", 300, 10000, "TraceLayout", "TraceLayout_C15.cfg")]),
+    "C17": dict(level="other", explanation="Partial: decides the allocation protocol (layout equality, guard words, double free, leak of the sorter buffer class), the sorter's two-ended buffer bookkeeping (hook H2) and arithmetic overflow (checked build) on executions of the real code, validated by TLC against Alloc.tla. Out-of-bounds READS, use of freed memory through a lifetime-extended reference, alignment and provenance violations leave no trace in these events and are NOT decided (needs Miri/ASan, a different technique family).",
+                assumptions=TRUST + ["monitoring global allocator of the harness process (header + canaries per block)", "hook H2 exposes the sorter's buffer accounting", "overflow checks of the dev-profile build"],
+                gen=[G("alloc", 240, 8000, "TraceAlloc", "TraceAlloc.cfg"),
+                     G("alloc_readers", 40, 1200, "TraceAlloc", "TraceAlloc.cfg")]),
     "C18": dict(level="model_checking", assumptions=TRUST + ["independent decoder: sequential walk, codec crates, LEB128 framing parser"],
                 gen=[G("unsorted", 1200, 40000, "TraceLayout", "TraceLayout_C18.cfg")]),
     "C03": dict(level="model_checking", assumptions=TRUST,
